@@ -374,6 +374,38 @@ impl Director {
         }
     }
 
+    /// (C15, service liveness) Ask the node's helper for a block it has certainly stored (its newest
+    /// delivery): the reply must come, whatever was sent before.  A helper that no longer answers —
+    /// because it panicked OR because it is stuck on an earlier request — is a dead service.
+    async fn probe_helper(&mut self, run: &mut Run<'_>) {
+        let b = match run.mon.last_commit() {
+            Some(b) => b,
+            None => return,
+        };
+        if run.diverged {
+            // the lock-step comparison stopped; the probe still judges the real node alone
+        }
+        let node = run.w.node;
+        let origin = *others(&run.w.u, node).choose(&mut self.rng).unwrap();
+        if run.w.u.stake(origin) == 0 {
+            return;
+        }
+        let pk = run.w.u.pk(origin);
+        let d = b.digest();
+        run.rep.hit("probe.helper");
+        self.give(run, Stim::Msg(ConsensusMessage::SyncRequest(d.clone(), pk))).await;
+        let answered = run.last.frames.iter().any(|(to, m)| *to == origin && matches!(m, ConsensusMessage::Propose(x) if x.digest() == d));
+        if !answered {
+            let replay = run.replay_json();
+            run.rep.finding(
+                "impl_vs_property",
+                "C15:service-dead:helper",
+                format!("the node delivered block {} (round {}) but no longer answers a sync request for it from member {}: its helper task is dead or stuck after the inputs before", hex(&d.0[..6]), b.round, origin),
+                replay,
+            );
+        }
+    }
+
     async fn give(&mut self, run: &mut Run<'_>, s: Stim) {
         if matches!(s, Stim::Msg(_)) && self.old.len() < 200 {
             self.old.push(s.clone());
@@ -983,6 +1015,9 @@ impl Director {
                 };
                 let pk = run.w.u.pk(origin);
                 self.give(run, Stim::Msg(ConsensusMessage::SyncRequest(d, pk))).await;
+                if self.rng.gen_bool(0.5) {
+                    self.probe_helper(run).await;
+                }
             }
             6 => {
                 // garbage frame
@@ -1092,6 +1127,8 @@ pub fn run_scenario(seed: u64, steps: usize, rep: &mut Report, use_model: bool) 
         for _ in 0..3 {
             d.answer_requests(&mut run).await;
         }
+        // service liveness after everything that was thrown at the node
+        d.probe_helper(&mut run).await;
         let replay = run.replay_json();
         run.mon.finish(&mut run.w.u, run.rep, &replay);
         for p in world::take_panics() {
